@@ -688,6 +688,11 @@ def g_stack_twin(rng, tier, props):
     return GS.twin_schedules(rng, props, n_of(tier, 12, 120))
 
 
+def g_stack_restart(rng, tier, props):
+    # a client program restarted behind the same address with a fresh token for the same id (lost or delivered farewell)
+    return GS.restart_schedules(rng, props, n_of(tier, 14, 150))
+
+
 def g_stack_churn(rng, tier, props):
     # clients join one after the other and leave on their own initiative in some order; the others keep exchanging messages
     return GS.stack_schedules(rng, props, n_of(tier, 16, 200), modes=("churn", "churn_hole", "churn_hole"))
@@ -739,7 +744,7 @@ PLANS = {
                      "every kind with fields at 0/1/63/64/16383/16384/2^30-1/2^30/2^62-1, netcode packets of every kind x 15 sequence values x "
                      "payload lengths, tokens with 1..32 IPv4/IPv6 addresses, byte strings (valid encodings, truncations, byte replacements, "
                      "random) for decode-reencode-decode; all cases count as non-trivial, distinct = different step lists"),
-    "C20": Plan("stack", "TraceTransportMon", ["C20"], [("stack", g_stack), ("stack_twin", g_stack_twin)],
+    "C20": Plan("stack", "TraceTransportMon", ["C20"], [("stack", g_stack), ("stack_twin", g_stack_twin), ("stack_restart", g_stack_restart)],
                 mc=[mc_job("transport_glue", "MC_Transport", {"quick": ["MC_C20_q1.cfg", "MC_C20_q2.cfg"], "thorough": ["MC_C20_q1.cfg", "MC_C20_q2.cfg"]}, ["C20"], strict=False,
                            cap_q=250, cap_t=5000),
                     # liveness under weak fairness of every endpoint (TLC temporal checking, nothing exported)
